@@ -36,7 +36,7 @@ EDGE_QUERIES = ["edge_error", "edge_chi2", "edge_jacobians", "edge_cgh", "edge_n
                 "edge_equals_self", "edge_equals_clone", "buffer_error", "buffer_jacobians", "buffer_cgh"]
 VERTEX_QUERIES = ["vertex_to_g2o", "vertex_equals_self", "vertex_equals_other"]
 GRAPH_QUERIES = ["graph_chi2", "graph_equals_clone", "graph_equals_perturbed", "graph_export", "graph_export", "params_to_g2o", "graph_deepcopy", "graph_pickle",
-                 "twin_equals", "twin_equals", "twin_chi2", "twin_chi2"]
+                 "twin_equals", "twin_equals", "twin_chi2", "twin_chi2", "graph_plot"]
 POSE_QUERIES = ["pose_unary", "pose_binary", "pose_jac_unary", "pose_jac_binary", "pose_jac_point", "pose_boxplus",
                 "pose_alias_iadd", "pose_copy_independent", "pose_views_independent", "pose_equals", "pose_held_result", "pose_held_result"]
 
@@ -187,7 +187,7 @@ class C15(OptEngineBase):
     ]
     PROBES = [
         "numeric_jacobian_on_fixed_vertex", "same_vertex_twice_in_edge", "nary_edge", "export_failed", "export_ok", "optimize_failed",
-        "alias_test", "returned_buffer_test", "history_len_50", "copy_test", "query_raised_naturally", "optimize_ok", "raw_heading_written_in_place", "held_result_test", "question_asked_again_later",
+        "alias_test", "returned_buffer_test", "history_len_50", "copy_test", "query_raised_naturally", "optimize_ok", "raw_heading_written_in_place", "held_result_test", "question_asked_again_later", "graph_plotted",
     ]
 
     # ------------------------------------------------------------------ generate
@@ -234,6 +234,15 @@ class C15(OptEngineBase):
                 if v["pose"]["t"] == "SE2" and rng.random() < 0.5:
                     v["raw_heading"] = core_fx(rng.choice([rng.uniform(-3.1, 3.1), 0.1, 0.3, 0.7, -2.5, 1e-10, 1e-17, 3.0]))
                     meta["raw_heading"] = True
+        if rng.random() < 0.15:
+            # coordinates that are exactly -0.0 (a legal double; "cleaning it up" changes the bits)
+            from .core import fx as _fx2
+
+            for v in verts:
+                if rng.random() < 0.4:
+                    k = rng.randrange(2)
+                    v["pose"]["v"][k] = _fx2(-0.0)
+            meta["negative_zero"] = True
         g = build_c15(workload)
         pool = pose_pool(g)
         ne = len(workload["edges"])
@@ -289,6 +298,12 @@ class C15(OptEngineBase):
         for o in ops:
             if "again_of" in o:
                 o["again_of"] = True
+        seen_plot = False
+        for o in ops:
+            if o.get("q") == "graph_plot":
+                if seen_plot or rng.random() < 0.5:
+                    o["q"] = "graph_chi2"
+                seen_plot = True
         meta["n_queries"] = n_q
         case = {"config": config, "workload": workload, "meta": meta, "ops": ops, "faults": []}
         if rng.random() < 0.55:
@@ -379,6 +394,21 @@ class C15(OptEngineBase):
         if q == "graph_export":
             g.to_g2o(op["path"])
             return "exported"
+        if q == "graph_plot":
+            # drawing the graph is a query too (matplotlib's Agg backend; show() is a no-op here)
+            import graphslam.graph as _gg
+
+            if getattr(_gg, "plt", None) is None:
+                return "no-matplotlib"
+            saved_show = _gg.plt.show
+            _gg.plt.show = lambda *a, **k: None
+            try:
+                g.plot()
+            finally:
+                _gg.plt.show = saved_show
+                _gg.plt.close("all")
+            res.probe("graph_plotted")
+            return "plotted"
         if q == "twin_equals":
             return [g.equals(self._twin), self._twin.equals(g)]
         if q == "twin_chi2":
